@@ -99,8 +99,7 @@ Definition file_of (r : result (list (string * string))) (f : string) : string :
 
 Example C14_nonvacuous_render :
   let pkg := package inject_cfg backend_atlas ex_q ex_md in
-  containsb ("  // Class level variables" +++ nl +++ nl +++ "  " +++ nl +++ nl +++ "  "
-             +++ nl +++ "  int m; {% for %}" +++ nl +++ "  "
+  containsb (nl +++ "  int m; {% for %}" +++ nl +++ "  "
              +++ nl +++ "  {{ l }} {# c #}" +++ nl +++ "  "
              +++ nl +++ "  float f;" +++ nl +++ "  " +++ nl +++ "};") (file_of pkg "query.h") = true
   /\ containsb ("LINK_LIBRARIES AnaAlgorithmLib L1 L2 )") (file_of pkg "package_CMakeLists.txt") = true
